@@ -471,7 +471,14 @@ func runHubCaseRaw(c *h.Ctx, r *h.Report, o *gen.Oracle, cs hubCase, uuidGen *co
 		// goroutines of the hub are blocked for ever although every client is gone and the hub was stopped:
 		// a handler waiting on a channel nobody will feed, a Close waiting for it, …
 		rp := map[string]any{"family": "hub", "case": cs}
-		for _, k := range []string{"C13:hub-goroutine-blocked-forever", "C14:hub-goroutine-blocked-forever", "C15:hub-goroutine-blocked-forever"} {
+		keys := []string{"C13:hub-goroutine-blocked-forever", "C14:hub-goroutine-blocked-forever", "C15:hub-goroutine-blocked-forever",
+			// a handler that never returns never runs its shutdown: the stream is never accounted as ended (C20) and,
+			// with subscription tracking, its end is never announced (C17)
+			"C20:stream-never-accounted-as-ended-(handler-blocked-forever)"}
+		if cs.Cfg.Subscriptions {
+			keys = append(keys, "C17:end-never-announced-(handler-blocked-forever)")
+		}
+		for _, k := range keys {
 			r.Violate(h.Violation{Key: k, What: "after this history, with every client gone and the hub stopped, goroutines of the hub remain blocked for ever (" + stuck + ")", Replay: rp})
 		}
 	}()
